@@ -428,6 +428,11 @@ class Powertrain:
                 f"{min(self.time)} - {max(self.time)}."
             )
 
+        target_time_value = min(
+            max(target_time.to('sec').value, min(self.time).to('sec').value),
+            max(self.time).to('sec').value
+        )
+
         if variables is not None:
             if not isinstance(variables, list):
                 raise TypeError("Parameter 'variables' must be a list.")
@@ -550,7 +555,7 @@ class Powertrain:
                     )
                     data.loc[element.name, f'{variable} ({unit})'] = \
                         interpolation_function(
-                        target_time.to('sec').value
+                        target_time_value
                     ).take(0)
 
             if isinstance(element, MotorBase):
@@ -560,7 +565,7 @@ class Powertrain:
                         y=element.time_variables['pwm']
                     )
                     data.loc[element.name, 'pwm'] = interpolation_function(
-                        target_time.to('sec').value
+                        target_time_value
                     ).take(0)
 
                 if 'electric current' in variables:
@@ -580,7 +585,7 @@ class Powertrain:
                             element.name,
                             f'electric current ({current_unit})'
                         ] = interpolation_function(
-                            target_time.to('sec').value
+                            target_time_value
                         ).take(0)
 
             if isinstance(element, GearBase | WormGear):
@@ -612,7 +617,7 @@ class Powertrain:
                         element.name,
                         f'{variable} ({unit})'
                     ] = interpolation_function(
-                        target_time.to('sec').value
+                        target_time_value
                     ).take(0)
 
         if print_data:
